@@ -1,6 +1,7 @@
 package main
 
 import (
+	"go/types"
 	"fmt"
 	"os"
 	"sort"
@@ -480,6 +481,9 @@ func hasSourceName(fn *ssa.Function, name string) bool {
 				switch x := ins.(type) {
 				case *ssa.DebugRef:
 					if o := x.Object(); o != nil && o.Name() == name {
+						if v, ok := o.(*types.Var); ok && v.IsField() {
+							continue // a field selector (c.opts) is not a variable of the function
+						}
 						return true
 					}
 				case *ssa.Alloc:
